@@ -592,7 +592,7 @@ def correspond(ctx, res):
                     "counter >= 2^31, or the record is an old-kernel or malformed one; distinct = distinct rendered files")
         validate_renderers(ctx, res)
         cases = corpus_cases()
-        n = ctx.n(1800, 60000)
+        n = ctx.n(1800, 30000)
         n_mal = max(50, n // 8)
         for i in range(n):
             cases.append(gen_case(ctx.rng, FAMILIES[i % len(FAMILIES)]))
